@@ -9,6 +9,7 @@ import (
 	"os"
 	"sort"
 	"strings"
+	"sync"
 
 	"verif/mc/report"
 )
@@ -58,7 +59,7 @@ func caseLess(a, b *caseT) bool {
 }
 
 func primaryKind(k string) bool {
-	return k == "single" || k == "valid" || k == "resigned" || k == "byzblock" || k == "framing"
+	return k == "single" || k == "valid" || k == "resigned" || k == "byzblock" || k == "framing" || k == "roundtrip" || k == "rehashed" || k == "second-claim" || k == "pol-sequence"
 }
 
 func finish(r *report.Run, us []*unit, results []*unitResult, deaths []deathRec, machinery []string, expired bool, tier string, target int, unitsDone int) {
@@ -129,40 +130,77 @@ func finish(r *report.Run, us []*unit, results []*unitResult, deaths []deathRec,
 			}
 		}
 	}
-	// worker deaths: re-run the journalled case alone, five times
+	// worker deaths: the restarted workers described the killer cases; the first death of each class is
+	// re-executed alone five times in fresh processes (in parallel), all five must die
 	if len(deaths) > 0 {
+		killers := map[string]*caseT{}
+		for _, res := range results {
+			for _, sk := range res.Skipped {
+				killers[fmt.Sprintf("%d:%d", res.Unit, sk.Idx)] = sk.Case
+			}
+		}
 		sort.Slice(deaths, func(i, j int) bool {
 			if deaths[i].Unit != deaths[j].Unit {
 				return deaths[i].Unit < deaths[j].Unit
 			}
 			return deaths[i].Case < deaths[j].Case
 		})
-		confirmed := 0
+		type dgroup struct {
+			first  deathRec
+			cs     *caseT
+			states map[string]bool
+			peers  map[string]bool
+			count  int
+			fam    string
+		}
+		dgs := map[string]*dgroup{}
+		var order []string
 		for _, d := range deaths {
-			if confirmed >= 12 {
-				break // enough to report; the rest is counted
-			}
-			cs, died, tail := rerunAlone(d.Unit, d.Case, tier, target, 5)
+			cs := killers[fmt.Sprintf("%d:%d", d.Unit, d.Case)]
 			if cs == nil {
-				machinery = append(machinery, fmt.Sprintf("cannot regenerate the case of a worker death (unit %s case %d)", us[d.Unit].ID, d.Case))
+				machinery = append(machinery, fmt.Sprintf("a worker died at unit %s case %d but the case was not described by the restarted worker", us[d.Unit].ID, d.Case))
 				continue
 			}
-			if died != 5 {
-				irrepro = append(irrepro, fmt.Sprintf("worker death at unit %s case %d reproduced %d/5 times: %s", us[d.Unit].ID, d.Case, died, short(tail, 300)))
-				continue
-			}
-			confirmed++
-			why := deathReason(tail)
-			gk := fmt.Sprintf("%s|%02x|%s|%s|%s|%s", cs.Reactor, cs.Ch, cs.Msg, cs.Field, cs.Class, "process-death:"+why)
-			g := groups[gk]
+			gk := fmt.Sprintf("%s|%02x|%s|%s|%s", cs.Reactor, cs.Ch, cs.Msg, cs.Field, cs.Class)
+			g := dgs[gk]
 			if g == nil {
-				g = &vgroup{Reactor: cs.Reactor, Msg: cs.Msg, Field: cs.Field, Class: cs.Class, Oracle: "process-death:" + why, Ch: cs.Ch, Kind: cs.Kind, States: map[string]bool{}, Peers: map[string]bool{},
-					What: "the node process dies (5/5 re-executions): " + short(firstLines(tail, 3), 400), Case: cs, Family: familyOf(us[d.Unit])}
-				groups[gk] = g
+				g = &dgroup{first: d, cs: cs, states: map[string]bool{}, peers: map[string]bool{}, fam: familyOf(us[d.Unit])}
+				dgs[gk] = g
+				order = append(order, gk)
 			}
-			g.Count++
-			g.States[cs.State] = true
-			g.Peers[cs.Peer] = true
+			g.count++
+			g.states[cs.State] = true
+			g.peers[cs.Peer] = true
+		}
+		type conf struct {
+			died int
+			tail string
+		}
+		confs := make([]conf, len(order))
+		var wg sync.WaitGroup
+		sem := make(chan struct{}, 8)
+		for i, gk := range order {
+			wg.Add(1)
+			go func(i int, g *dgroup) {
+				defer wg.Done()
+				sem <- struct{}{}
+				defer func() { <-sem }()
+				died, tail := rerunAlone(g.first.Unit, g.first.Case, tier, target, 5, i)
+				confs[i] = conf{died, tail}
+			}(i, dgs[gk])
+		}
+		wg.Wait()
+		for i, gk := range order {
+			g := dgs[gk]
+			if confs[i].died != 5 {
+				irrepro = append(irrepro, fmt.Sprintf("worker death at unit %s case %d reproduced %d/5 times: %s", us[g.first.Unit].ID, g.first.Case, confs[i].died, short(confs[i].tail, 300)))
+				continue
+			}
+			why := deathReason(confs[i].tail)
+			cs := g.cs
+			k := fmt.Sprintf("%s|%02x|%s|%s|%s|%s", cs.Reactor, cs.Ch, cs.Msg, cs.Field, cs.Class, "process-death:"+why)
+			groups[k] = &vgroup{Reactor: cs.Reactor, Msg: cs.Msg, Field: cs.Field, Class: cs.Class, Oracle: "process-death:" + why, Ch: cs.Ch, Kind: cs.Kind, States: g.states, Peers: g.peers,
+				What: "the node process dies (5/5 re-executions in fresh processes): " + short(firstLines(confs[i].tail, 3), 400), Case: cs, Family: g.fam, Count: g.count}
 		}
 		r.Set("worker_deaths", len(deaths))
 	}
@@ -246,6 +284,7 @@ func finish(r *report.Run, us []*unit, results []*unitResult, deaths []deathRec,
 		r.Require(stages["ev:added-to-pool"] > 0, "no evidence ever entered the pool")
 		r.Require(stages["pex:addresses-added"] > 0, "no address ever entered the address book")
 		r.Require(stages["conn:delivered"] > 0, "connection framing never delivered a message")
+		r.Require(stages["roundtrip-ok"] >= 24, "fewer than 24 message types went through the encode/decode round trip")
 	}
 	if len(machinery) > 0 {
 		for _, m := range machinery {
@@ -293,23 +332,15 @@ func deathReason(tail string) string {
 	}
 }
 
-// rerunAlone executes one case of one unit in fresh worker processes; returns the case, how many of
-// the n executions died and the last stderr tail.
-func rerunAlone(unitIdx, caseIdx int, tier string, target int, n int) (*caseT, int, string) {
-	var cs *caseT
+// rerunAlone executes one case of one unit alone in n fresh worker processes; returns how many of
+// them died and the last stderr.
+func rerunAlone(unitIdx, caseIdx int, tier string, target int, n int, slot int) (int, string) {
 	died := 0
 	tail := ""
 	for i := 0; i < n; i++ {
-		wp, err := startWorker(900+i, tier, target)
+		wp, err := startWorker(900+slot*10+i, tier, target)
 		if err != nil {
-			return nil, 0, err.Error()
-		}
-		fmt.Fprintf(wp.in, "C %d %d\n", unitIdx, caseIdx) // print the case first
-		if wp.out.Scan() {
-			var c caseT
-			if json.Unmarshal(wp.out.Bytes(), &c) == nil && c.Reactor != "" {
-				cs = &c
-			}
+			return 0, err.Error()
 		}
 		_, _, ok := wp.request(unitIdx, 0, caseIdx, nil)
 		if !ok {
@@ -320,7 +351,7 @@ func rerunAlone(unitIdx, caseIdx int, tier string, target int, n int) (*caseT, i
 			wp.stop()
 		}
 	}
-	return cs, died, tail
+	return died, tail
 }
 
 // ---------------------------------------------------------------------------------------------
